@@ -154,6 +154,50 @@ static void st_case(uint64_t i, void *ctx)
     mc_outcome(i);
 }
 
+/* ------------------------------------------------------------------ (1d) a re-opened listener, and reading at end of file */
+static void ro_desc(uint64_t i, void *ctx, char *b, size_t n) { (void) ctx; snprintf(b, n, i ? "listener / client open / accept / send \"hello\" / close(client) / recv = \"hello\" / recv again at end of file / the accepted object still owns its descriptor"
+                                                                                       : "listener open / set_nbio / close / open again (a new, blocking descriptor) / client open / accept / the client sends \"hello\" 100 ms later from another process / recv on the accepted socket"); }
+static void ro_case(uint64_t i, void *ctx)
+{
+    (void) ctx; const char *shape = i ? "reading again at end of file" : "listener closed and opened again"; mc_set_shape(shape);
+    setpath(); int fd0 = lowest_free_fd(); unlink(g_path);
+    spif_socket_t L = mk_listener(), C = mk_client(), A = NULL; spif_str_t data = spif_str_new_from_ptr((spif_charptr_t) "hello"), got = NULL; pid_t kid = 0;
+    if (!L || !C || !spif_socket_open(L)) { FAIL("spif_socket_open", "model:return", shape, "listener could not be opened"); goto out; }
+    if (!i) { spif_socket_set_nbio(L); if (!spif_socket_close(L)) FAIL("spif_socket_close", "model:return", shape, "close failed"); unlink(g_path); if (!spif_socket_open(L)) { FAIL("spif_socket_open", "model:return", shape, "the closed listener could not be opened again"); goto out; } }
+    if (!spif_socket_open(C)) { FAIL("spif_socket_open", "model:return", shape, "client could not connect"); goto out; }
+    A = spif_socket_accept(L);
+    if (!A) { FAIL("spif_socket_accept", "model:return", shape, "accept returned NULL"); goto out; }
+    if (!i) {
+        fflush(NULL); kid = fork();
+        if (kid == 0) { usleep(100000); _exit(spif_socket_send(C, data) ? 0 : 3); }
+        spif_socket_close(C);          /* the sender's copy is the only one left: its exit is the end of file */
+        got = spif_socket_recv(A);
+        if (!got || !got->s || strcmp((char *) got->s, "hello")) FAIL("spif_socket_recv", "model:bytes-differ", shape, "the accepted socket of a blocking listener received \"%.20s\" instead of \"hello\" (the listener's earlier descriptor was non-blocking)", got && got->s ? (char *) got->s : "(nothing)");
+        int st = 0; waitpid(kid, &st, 0);
+    } else {
+        if (!spif_socket_send(C, data)) FAIL("spif_socket_send", "model:return", shape, "send failed");
+        spif_socket_close(C);
+        got = spif_socket_recv(A);
+        if (!got || !got->s || strcmp((char *) got->s, "hello")) FAIL("spif_socket_recv", "model:bytes-differ", shape, "received \"%.20s\" instead of \"hello\"", got && got->s ? (char *) got->s : "(nothing)");
+        if (got) spif_str_del(got);
+        got = spif_socket_recv(A);
+        if (got && got->s && got->len) FAIL("spif_socket_recv", "model:bytes-differ", shape, "a second recv at end of file returned %ld bytes", (long) got->len);
+        if (A->fd < 0) FAIL("spif_socket_recv", "model:descriptor-dropped", shape, "the accepted object lost its descriptor by reading at end of file");
+        else if (!fd_open(A->fd)) FAIL("spif_socket_recv", "invariant:refers-to-closed-descriptor", shape, "after reading at end of file the accepted object refers to descriptor %d, which is closed", A->fd);
+        { spif_socket_t C2 = mk_client(); if (C2) { spif_socket_open(C2); if (C2->fd >= 0 && C2->fd == A->fd) FAIL("spif_socket_recv", "model:shared-descriptor", shape, "a new client got descriptor %d, which the accepted object still calls its own", A->fd); spif_socket_del(C2); } }
+    }
+out:
+    if (got) spif_str_del(got);
+    if (A) spif_socket_del(A);
+    if (C) spif_socket_del(C);
+    if (L) spif_socket_del(L);
+    spif_str_del(data); unlink(g_path);
+    int fd1 = lowest_free_fd();
+    if (fd1 != fd0) FAIL("spif_socket", "fd-leak", shape, "lowest free descriptor moved from %d to %d", fd0, fd1);
+    mc_nontrivial();
+    mc_outcome(i);
+}
+
 /* ------------------------------------------------------------------ (1c) a duplicate and its original share the connection, not their fate */
 static void di_desc(uint64_t i, void *ctx, char *b, size_t n) { (void) ctx; snprintf(b, n, "listener / client open / accept / D = dup(client) / %s / send \"hello\" over the other one / recv on the accepted socket", i ? "del(D)" : "del(client)"); }
 static void di_case(uint64_t i, void *ctx)
@@ -340,6 +384,7 @@ int main(int argc, char **argv)
         mc_e2_level("transfer", g_k * 10 + g_dev, (uint64_t) NLENS * 2, tr_case, tr_desc, NULL);
         { int k = g_k, d = g_dev; mc_e2_level("storm", 300, 8, st_case, st_desc, NULL); g_k = k; g_dev = d; }
         mc_e2_level("dup_independence", 1, 2, di_case, di_desc, NULL);
+        mc_e2_level("reopen_and_eof", 1, 2, ro_case, ro_desc, NULL);
     }
     if (!mc_arg("only", NULL) || !strcmp(mc_arg("only", ""), "lifecycle")) {
         mc_sys sys = { "lifecycle", NOPS, op_name, fresh, enabled, apply, NULL, canon, teardown, (int) mc_arg_int("lookahead", 1) };
